@@ -17,7 +17,7 @@ TRUSTED = ["Coq 8.16.1 kernel + bytecode VM (vm_compute)", "harness/constgen (Me
            "gzip/zstd decoders, kernel pipes, x/crypto/ssh transport are outside the model",
            "Python oracle insert_nl (independent re-statement of the specification)"]
 ASSUMPTIONS = ["MaxLineLength >= 1", "known_hosts already holds the server (first-contact warnings are logging, not file content)",
-               "compressed files are well-formed gzip/zstd streams"]
+               "compressed files are well-formed gzip (one or several members) / zstd streams"]
 MAXLENS = [16, 1024, 65536, 1048576]
 HOT = bytes([0x0a, 0xac, 0x2e, 0x7c, 0x00, 0xc2, 0xe2, 0x0d])
 
@@ -117,7 +117,8 @@ def generate(rng, tier):
         else:
             kind, suffix = "zst", rng.choice([".zst", ".log.zst"])
         cases.append({"maxlen": maxlen, "content": content.hex(), "kind": kind, "suffix": suffix,
-                      "transport": "server" if rng.random() < 0.4 else "serverless"})
+                      "transport": "server" if rng.random() < 0.4 else "serverless",
+                      "members": rng.choice([1, 1, 2, 3]) if kind == "gz" else 1})     # gzip -c more >> f.gz: several members in one file
     # a consumer that stalls for several seconds before it reads (the reader then reaches end of file
     # long after it started: the periodic truncation check has fired by then); unterminated last line
     big = b"".join(b"%06d %s\n" % (i, b"z" * 200) for i in range(3000)) + b"LAST-LINE-WITHOUT-NEWLINE"
@@ -152,7 +153,7 @@ def run_impl(cases, tier):
     mk = []
     for i, c in enumerate(cases):
         c["_path"] = os.path.join(fdir, "f%05d%s" % (i, c["suffix"]))
-        mk.append({"path": c["_path"], "kind": c["kind"], "data": c["content"]})
+        mk.append({"path": c["_path"], "kind": c["kind"], "data": c["content"], "members": c.get("members", 1)})
     res, infos = vf.harness_parallel("mkfile", mk)
     if any(r is None or not r.get("ok") for r in res):
         raise RuntimeError("mkfile failed: %s" % infos)
